@@ -276,6 +276,29 @@ def hostile_announcements(c12, rng):
         out.append(("odd-name-a:" + nm, [{"src": hostile_ip, "msg": {"answers": [], "additional": [c12.rec_a(labels, hostile_ip)], "compress": False}}]))
     # odd instance names
     out.append(("raop-no-at", [svc("_raop._tcp.local", [kv("am", "AppleTV6,2")], inst="noatsign")]))
+    # well-formed DNS framing around records whose RDATA has the wrong size for its type
+    import struct as _st
+
+    def _nm(labels):
+        return b"".join(bytes([len(l)]) + l.encode() for l in labels) + b"\0"
+
+    def _rr(labels, t, rd, cls=0x8001):
+        return _nm(labels) + _st.pack(">HHIH", t, cls, 120, len(rd)) + rd
+
+    def _msg(ans, add):
+        return _st.pack(">6H", 0, 0x8400, 0, len(ans), 0, len(add)) + b"".join(ans) + b"".join(add)
+    _inst, _host, _ty = ["evil", "_airplay", "_tcp", "local"], ["evilhost", "local"], ["_airplay", "_tcp", "local"]
+    _srv = _rr(_inst, 33, _st.pack(">3H", 0, 0, 7000) + _nm(_host))
+    _a = _rr(_host, 1, bytes([10, 7, 7, 7]))
+    odd_rdata = [("a-rdata-3-bytes", _msg([_rr(_ty, 12, _nm(_inst), 1)], [_srv, _rr(_inst, 16, b"\x03a=b"), _rr(_host, 1, b"abc")])),
+                 ("a-rdata-5-bytes", _msg([_rr(_ty, 12, _nm(_inst), 1)], [_srv, _rr(_inst, 16, b"\x03a=b"), _rr(_host, 1, b"abcde")])),
+                 ("a-rdata-empty", _msg([_rr(_ty, 12, _nm(_inst), 1)], [_srv, _rr(_inst, 16, b"\x03a=b"), _rr(_host, 1, b"")])),
+                 ("srv-rdata-short", _msg([_rr(_ty, 12, _nm(_inst), 1)], [_rr(_inst, 33, b"\0\0\0"), _a])),
+                 ("txt-chunk-beyond-rdata", _msg([_rr(_ty, 12, _nm(_inst), 1)], [_srv, _rr(_inst, 16, b"\xffabc"), _a])),
+                 ("ptr-rdata-empty", _msg([_rr(_ty, 12, b"", 1)], [_srv, _a])),
+                 ("aaaa-rdata-short", _msg([_rr(_ty, 12, _nm(_inst), 1)], [_srv, _rr(_host, 28, b"abc"), _a]))]
+    for name, raw in odd_rdata:
+        out.append(("garbage-" + name, [{"src": hostile_ip, "garbage": raw.hex()}]))
     # raw garbage from the hostile host
     for name, raw in [("garbage-empty", b""), ("garbage-short", b"\x00\x01"), ("ptr-loop", bytes(12)[:4] + b"\x00\x01\x00\x00\x00\x00\x00\x00\xc0\x0c\x00\x0c\x00\x01"),
                       ("huge-counts", b"\x00\x00\x84\x00\xff\xff\xff\xff\xff\xff\xff\xff"), ("ones", b"\xff" * 64),
